@@ -349,6 +349,15 @@ def describe(cfg, calls):
                                                         "r": c["o"]["r"], "metric": c["o"]["m"]} for c in calls]}
 
 
+def merge_verdicts(r, n, what):
+    """<<"V", tid, clause, step, ...>> + <<"C", tid, costclause, step>> -> {index: (clause, step, costclause, coststep, ...)}"""
+    v = {t[1] - 1: t[2:] for t in r.tuples if t[0] == "V"}
+    c = {t[1] - 1: t[2:] for t in r.tuples if t[0] == "C"}
+    if len(v) != n or len(c) != n:
+        raise lib.MachineryError(f"{what}: verdicts not total: {len(v)} / {len(c)} of {n}")
+    return {i: (v[i][0], v[i][1], c[i][0], c[i][1], *v[i][2:]) for i in range(n)}
+
+
 def run_trace(traces, wd):
     cfgs, objs, ci, oi, tr = [], [], {}, {}, []
 
@@ -367,9 +376,7 @@ def run_trace(traces, wd):
     r = lib.run_tlc("Trace_Optimizers", lib.cfg(init="TInit", next_="TNext", constants={"NTRACES": len(traces)}), wd,
                     env={"TRACE_FILE": str(wd / "traces.json")}, timeout=3000)
     lib.require_ok(r, "Trace_Optimizers")
-    verd = {t[1] - 1: t[2:] for t in r.tuples if t[0] == "V"}
-    if len(verd) != len(traces):
-        raise lib.MachineryError(f"verdicts not total: {len(verd)} of {len(traces)}")
+    verd = merge_verdicts(r, len(traces), "Trace_Optimizers")
     exps = {j["tid"] - 1: [step_rec([None] + t) for t in j["exp"]] for j in r.json_lines}
     return r, verd, exps
 
@@ -429,19 +436,25 @@ def gradient_part(tier, seed, only=None):
                 add(f"{cfg['kind']}:{b[0]}", f"{cfg['kind']} call {b[1] + 1} ({calls[b[1]]['k']}): {b[2]}", cfg, calls[:b[1] + 1],
                     {"observed": obs[:b[1] + 1]})
 
-    # comparator negative control: one corrupted expectation per sampled history must be flagged
+    # comparator controls (independent of the implementation): observations made of the spec's own expectations are accepted,
+    # one corrupted expectation is flagged
     neg_cmp = 0
     for idx in range(0, len(hists), max(1, len(hists) // 25)):
-        h, (cfg, calls), obs = hists[idx], gjobs[idx], gobs[idx]
-        if compare(cfg, calls, h["hist"], obs, dict(stats))[0] is not None or calls[0]["k"] == "reset":
+        h, (cfg, calls) = hists[idx], gjobs[idx]
+        if calls[0]["k"] == "reset":
             continue
+        synth = [{"x": [[alg_float(a) for a in arg] for arg in st["x"]], "cost": alg_float(st["cost"]),
+                  "acc": [[fl(v) for v in a] for a in st["acc"]], "sm": [[fl(v) for v in a] for a in st["sm"]], "t": st["t"],
+                  "exc": "", "msg": ""} for st in h["hist"]]
+        if compare(cfg, calls, h["hist"], synth, dict(stats)) != (None, None):
+            raise lib.MachineryError("comparator rejected the spec's own expectations")
         hh = json.loads(json.dumps(h["hist"]))
         i = cfg["train"].index(True)
         hh[0]["x"][i][0][:2] = rq(Fraction(*hh[0]["x"][i][0][:2]) + Fraction(1, 64))
-        if compare(cfg, calls, hh, obs, dict(stats))[0] is None:
+        if compare(cfg, calls, hh, synth, dict(stats))[0] is None:
             raise lib.MachineryError("comparator accepted a corrupted expectation")
         neg_cmp += 1
-    if hists and neg_cmp == 0 and not viol:
+    if hists and neg_cmp == 0:
         raise lib.MachineryError("no comparator negative control could be built")
 
     # (T) trace validation: generated (a stratified sample in the quick tier) + random histories, controls
@@ -744,6 +757,8 @@ def roto_compare(pr, exp, obs):
             costbad = ("cost-at-new-generators" if ob[9] else "cost", l)
         if tie:
             return bad, costbad, True          # equally good generators: the continuation depends on the choice (Trace_Roto decides)
+        if pr["kind"] == "rotoselect" and list(ob[3]) != list(ex_g):
+            return ("not-the-best-generator", l), costbad, drift
         for d in range(pr["P"]):
             if not ob[2][d]:
                 return ("frozen" if not pr["tr"][d] else "off-lattice", l), costbad, drift
@@ -754,8 +769,6 @@ def roto_compare(pr, exp, obs):
                 return ("not-a-minimum", l), costbad, drift
             elif ob[1][d] != ex_x[d]:
                 drift = True
-        if pr["kind"] == "rotoselect" and list(ob[3]) != list(ex_g):
-            return ("not-the-best-generator", l), costbad, drift
         if pr["kind"] == "rotosolve" and k == "cost" and not (ob[7] and list(ob[6]) == list(ys)):
             return ("ymin", l), costbad, drift
     return bad, costbad, drift
@@ -793,16 +806,20 @@ def rotosolve_part(tier, seed):
                 add(f"{pr['kind']}:{b[0]}", f"{pr['kind']} call {b[1] + 1} ({h[b[1]][0]}): {b[0]}; returned x (units of pi/16) {obs[b[1]][1]}, "
                     f"generators {obs[b[1]][3]}, cost {obs[b[1]][4]}; Roto.tla expects x = {h[b[1]][1]} (mod 32/fq), generators {h[b[1]][2]}, "
                     f"cost before the call {h[b[1]][3]}, sub-step minima {h[b[1]][4]}", pr, [c[0] for c in h], obs)
-    # comparator negative control
+    # comparator controls (independent of the implementation)
     neg_cmp = 0
-    for (pr, h), obs in list(zip(hists, obs_all))[::max(1, len(hists) // 20)]:
-        if roto_compare(pr, h, obs)[0] is None and not any(c[5] for c in h):
-            hh = json.loads(json.dumps(h))
-            d = pr["tr"].index(True)
-            hh[0][1][d] += 16 // pr["fq"][d]      # the maximum instead of the minimum
-            if roto_compare(pr, hh, obs)[0] is None:
-                raise lib.MachineryError("Roto comparator accepted a corrupted expectation")
-            neg_cmp += 1
+    for pr, h in hists[::max(1, len(hists) // 20)]:
+        if any(c[5] for c in h):
+            continue
+        synth = [[c[0], list(c[1]), [True] * pr["P"], list(c[2]), c[3], True, list(c[4]), True, "", False] for c in h]
+        if roto_compare(pr, h, synth)[:2] != (None, None):
+            raise lib.MachineryError("Roto comparator rejected the spec's own expectations")
+        hh = json.loads(json.dumps(h))
+        d = pr["tr"].index(True)
+        hh[0][1][d] += 16 // pr["fq"][d]      # the maximum instead of the minimum
+        if roto_compare(pr, hh, synth)[0] is None:
+            raise lib.MachineryError("Roto comparator accepted a corrupted expectation")
+        neg_cmp += 1
     # (T)
     traces, meta = [], []
     for (pr, h), obs in zip(hists, obs_all):
@@ -851,9 +868,7 @@ def rotosolve_part(tier, seed):
     r = lib.run_tlc("Trace_Roto", lib.cfg(init="TInit", next_="TNext", constants={"NTRACES": len(traces)}), wd,
                     env={"TRACE_FILE": str(wd / "traces.json")}, timeout=3000)
     lib.require_ok(r, "Trace_Roto")
-    verd = {t[1] - 1: t[2:] for t in r.tuples if t[0] == "V"}
-    if len(verd) != len(traces):
-        raise lib.MachineryError(f"Trace_Roto verdicts not total: {len(verd)} of {len(traces)}")
+    verd = merge_verdicts(r, len(traces), "Trace_Roto")
     neg_ok = pos_ok = 0
     calls_ok = tdrift = 0
     nontriv, samples = set(), []
